@@ -86,6 +86,13 @@ def main():
                 res['demo_fails_with_patch'] = True
                 res['demo_profile'] = 'release'
                 res['demo_output_tail'] = out3[-600:]
+        if not res['demo_fails_with_patch']:
+            # changes that only show in another cargo-feature configuration
+            rc4, out4 = sh(f'cargo test -p {crate} --offline --no-default-features --test {tname}', cwd=scratch, env=env)
+            if rc4 != 0 and 'test result: FAILED' in out4:
+                res['demo_fails_with_patch'] = True
+                res['demo_profile'] = 'no-default-features'
+                res['demo_output_tail'] = out4[-600:]
         os.remove(dpath)   # the demo is not part of the tree the checks see
         res['confirmed'] = bool(res['demo_clean_passes'] and res['patch_applies'] and res['suite_passes_with_patch'] and res['demo_fails_with_patch'])
         checks = {}
